@@ -143,6 +143,9 @@ func childrenChangeToProto(change *resource.CollectionChange) *traits.PullChildr
 // The has slice should be sorted in ascending order by Trait.Name.
 // The returned slice will be sorted in ascending order by Trait.Name.
 func traitUnion(has []*traits.Trait, more ...trait.Name) []*traits.Trait {
+	// has is typically the Traits slice of a stored Child which others may hold a reference to:
+	// never write to its backing array, work on a copy.
+	has = append(make([]*traits.Trait, 0, len(has)+len(more)), has...)
 	// has should be sorted by Trait.Name
 	for _, t := range more {
 		ts := string(t)
@@ -165,6 +168,9 @@ func traitUnion(has []*traits.Trait, more ...trait.Name) []*traits.Trait {
 // The has slice should be sorted in ascending order by Trait.Name.
 // The returned slice will be sorted in ascending order by Trait.Name.
 func traitRemove(has []*traits.Trait, remove ...trait.Name) []*traits.Trait {
+	// has is typically the Traits slice of a stored Child which others may hold a reference to:
+	// never write to its backing array, work on a copy.
+	has = append(make([]*traits.Trait, 0, len(has)), has...)
 	// has should be sorted by Trait.Name
 	for _, t := range remove {
 		ts := string(t)
